@@ -57,6 +57,19 @@ func TestProp_Tokens(t *testing.T) {
 		w := vkit.NewWorld(vkit.WorldConfig{Backend: backend, StorageWrapper: wrapper})
 		defer w.Close()
 		var toks []*tok
+		// Some applications build their option sets ONCE and reuse them: a plain set
+		// (default token lifetime) and, from the same base slice - which has spare
+		// capacity, as slices grown by append do - a strict one with a shorter maximum
+		// token lifetime. Each set is then passed to the library as it is, call after call.
+		var plainSet, strictSet []nodeenrollment.Option
+		strictName := ""
+		if rapid.IntRange(0, 2).Draw(t, "applicationReusesOptionSetsBuiltFromOneBase") == 0 {
+			base := make([]nodeenrollment.Option, len(w.Opts), len(w.Opts)+2)
+			copy(base, w.Opts)
+			strictName = rapid.SampledFrom([]string{"30s", "zero", "1ns"}).Draw(t, "strictLifetime")
+			plainSet = base
+			strictSet = append(base, nodeenrollment.WithMaximumServerLedActivationTokenLifetime(lifetimes[strictName]))
+		}
 		var hist []string
 		flags := map[string]bool{}
 		registered := []*vkit.Actor{} // actors that own a node record
@@ -132,6 +145,9 @@ func TestProp_Tokens(t *testing.T) {
 					t.Skip()
 				}
 				lname := rapid.SampledFrom([]string{"negative", "zero", "1ns", "30s", "default", "default", "years"}).Draw(t, "lifetime")
+				if strictName != "" {
+					lname = rapid.SampledFrom([]string{"default", strictName}).Draw(t, "whichReusedSet")
+				}
 				life := lifetimes[lname]
 				now := time.Now()
 				margin := x.created.Add(life).Sub(now)
@@ -175,8 +191,16 @@ func TestProp_Tokens(t *testing.T) {
 				}
 				// the caller may ask the library not to store the node record (it keeps
 				// records elsewhere): the token is spent by the use all the same
-				skipStorage := !removalFails && rapid.IntRange(0, 5).Draw(t, "callerSkipsStorage") == 0
+				skipStorage := !removalFails && strictName == "" && rapid.IntRange(0, 5).Draw(t, "callerSkipsStorage") == 0
 				fopts := w.O(nodeenrollment.WithMaximumServerLedActivationTokenLifetime(life))
+				if strictName != "" {
+					// the very same slices, call after call
+					fopts = plainSet
+					if lname == strictName {
+						fopts = strictSet
+					}
+					flags["application-reuses-option-sets-built-from-one-base"] = true
+				}
 				if skipStorage {
 					fopts = append(fopts, nodeenrollment.WithSkipStorage(true))
 					flags["use-with-skip-storage"] = true
